@@ -199,3 +199,12 @@ package snap
 //@   loop k
 //@     invariant 0 <= k && k <= ringLen && ringLen == len(ringI) && ringLen == len(ringJ) && 0 <= idx && idx < ringLen
 //@     decreases ringLen - k
+
+// C05 (repair of F4): the lookup set of splitRing holds the float form - as the index hands it out - of every centre
+// that the ring hits more than once. (float64 as real numbers: centre / 1e10.)
+//@ func hitMultipleVertices
+//@   prelude lists
+//@   loop intVertex as it
+//@     invariant !isNil(vertices)
+//@     invariant forall(k A2_Int, seen_it[k] && inSlice(hitMultiple[k], ringIdx) ==> hasKey(vertices, arr(real(k[0]) / 10000000000, real(k[1]) / 10000000000)), trigger(seen_it[k]))
+//@   ensures[C05] forall(k A2_Int, hasKey(hitMultiple, k) && inSlice(hitMultiple[k], ringIdx) ==> hasKey(result, arr(real(k[0]) / 10000000000, real(k[1]) / 10000000000)), trigger(hasKey(hitMultiple, k)))
